@@ -118,7 +118,7 @@ fn prelude() -> Vec<Stmt> {
     ]
 }
 
-pub const N_CONTEXTS: usize = 26;
+pub const N_CONTEXTS: usize = 27;
 
 /// The `c`-th one-hole context around `e` (single module unless stated).
 pub fn context(c: usize, e: &E) -> Program {
@@ -226,6 +226,11 @@ pub fn context(c: usize, e: &E) -> Program {
                 Stmt::Use("m.oal".into(), Some("m".into())),
                 res_get(content(qvar("m", "a"))),
             ];
+        }
+        26 => {
+            // a function that is declared and never applied
+            st.push(fun("g", &["x"], h()));
+            st.push(res_get(E::Content(vec![], None)));
         }
         _ => unreachable!(),
     }
